@@ -28,8 +28,10 @@ func init() { register("C20", genC20) }
 func genC20(c *Ctx) {
 	c20GenEncFlags(c)
 	c20GenRGSW(c)
+	c20GenShapes(c)
 	c20Gen32(c)
 	c20GenBlindRot(c)
+	c20GenHistory(c)
 	c20GenMalformed(c)
 }
 
@@ -533,7 +535,10 @@ func c20Homomorphisms(c *Ctx, ps *c20PS, sk *rlwe.SecretKey, sInts []int64, rgA 
 	c20HomProbe(c, ps, sk, sInts, acc, gAcc, lq, lp, w, 3, "rgsw_mulxminus1", par)
 
 	// ---- add a gadget plaintext ----
-	mPt := int64(c.rng.Intn(5)) - 2
+	mPt := int64(c.rng.Intn(4)) - 2
+	if mPt >= 0 {
+		mPt++
+	}
 	pt, err := rgsw.NewPlaintext(ps.params, mPt, lq, lp, w)
 	if err != nil {
 		c.Emit("rgsw_newplaintext "+par, "err")
